@@ -278,16 +278,17 @@ def _match_template_vars(
     t_vars = vars(template)
     n_vars = vars(node)
 
+    keys = []
     for k in t_vars:
         if k in ignore:
             continue
         if k not in n_vars:
+            if t_vars[k] == []:
+                continue  # A node built by hand without, for example, type_params has none
             return ()
+        keys.append(k)
 
-    matches = (
-        match_template(n_vars[key], t_vars[key], ignore=ignore)
-        for key in t_vars.keys() - ignore
-    )
+    matches = (match_template(n_vars[key], t_vars[key], ignore=ignore) for key in keys)
     return merge_matches(node, matches)
 
 
@@ -1399,6 +1400,8 @@ class _NameWildcardTransformer(ast.NodeTransformer):
             decorator_list=new_decorators,
             body=new_body,
         )
+        if hasattr(node, "type_params"):  # def f[T](): ..., from python 3.12
+            new_node.type_params = [self.visit(child) for child in node.type_params]
         return ast.copy_location(new_node, node)
 
     def visit_FunctionDef(self, node):
@@ -1414,6 +1417,8 @@ class _NameWildcardTransformer(ast.NodeTransformer):
             decorator_list=new_decorator_list,
             returns=new_returns,
         )
+        if hasattr(node, "type_params"):  # def f[T](): ..., from python 3.12
+            new_node.type_params = [self.visit(child) for child in node.type_params]
         return ast.copy_location(new_node, node)
 
     def visit_AsyncFunctionDef(self, node):
@@ -1429,6 +1434,8 @@ class _NameWildcardTransformer(ast.NodeTransformer):
             decorator_list=new_decorator_list,
             returns=new_returns,
         )
+        if hasattr(node, "type_params"):  # def f[T](): ..., from python 3.12
+            new_node.type_params = [self.visit(child) for child in node.type_params]
         return ast.copy_location(new_node, node)
 
     def visit_Expr(self, node):
